@@ -193,7 +193,10 @@ theorem floatToStr_plain_close (P : Params) (s : String) (h : PlainDec s) :
 
 /-- The contract of the two tables the harness supplies for reprs in exponent notation (checked by the harness on every case
     with exact rational arithmetic): `format(x, ".<d>f")` is a plain decimal within 10^-d of x (it rounds to nearest),
-    `np.format_float_positional(x, trim="0")` is a plain decimal of the same value. -/
+    `np.format_float_positional(x, trim="0")` is a plain decimal of the same value.  Scope: the `fix` clause compares TEXT values;
+    for |x| ≥ 2^53 `format` prints the exact binary value of the double, which differs from the decimal value of its shortest repr by
+    up to half an ulp (≥ 1), so `FixOk` fails for tables containing such reprs and the theorems that assume it say nothing about
+    them (the harness tags these cases `fixok-not-applicable:huge`; the float-level oracle judges them: float(text) = x exactly). -/
 structure FixOk (P : Params) : Prop where
   fix : ∀ k v, lookupFix k P.fix = some v → PlainDec v ∧ |realVal v - realVal k| < 1 / 10 ^ P.d
   pos : ∀ k v, lookupFix k P.pos = some v → PlainDec v ∧ realVal v = realVal k
